@@ -7,4 +7,9 @@ from sa import alpha
 ref = alpha.build_reference(os.environ.get("VERIF_REPO", "/repo"))
 with open(alpha.REF_FILE, "w") as fh:
     json.dump(ref, fh, indent=0, sort_keys=True)
+from sa import normalise
+fref = normalise.build_function_reference(os.environ.get("VERIF_REPO", "/repo"))
+with open(normalise.FUNC_REF_FILE, "w") as fh:
+    json.dump(fref, fh, indent=0)
+print("functions:", len(fref))
 print("functions with locals:", len(ref), "locals:", sum(len(v) for v in ref.values()))
